@@ -593,6 +593,7 @@ func c20Fetch(x *xctx) *violation {
 	// The same program in several builds and at two load addresses, with local
 	// binaries installed for some builds: what one fetch learns about a binary
 	// must not leak into the fetch running next to it.
+	c.realTransport = t.Bool(K, 50) // pprof's own transport over the simulated TLS network
 	multiBuild := t.Bool(K, 35)
 	if multiBuild {
 		for _, id := range []string{"b1d", "b2d", "b3d"} {
@@ -610,6 +611,12 @@ func c20Fetch(x *xctx) *violation {
 			s.buildID = []string{"b1d", "b2d", "b3d"}[t.Choose(K, 3)]
 			if t.Bool(K, 40) {
 				s.layout = 1
+			}
+		}
+		if c.realTransport && s.kind == skURL {
+			s.scheme = t.Choose(K, 4)
+			if s.scheme == 2 && s.fault == sfGood {
+				s.fault = sfCert
 			}
 		}
 		s.materialize()
